@@ -59,6 +59,7 @@ def plan(tier, seed):
     for fk in ("3d", "ps", "axi"):
         cases.append(dict(key=f"condensed-inplace/{fk}/bulk=50.0", kind="ni-inplace", fk=fk, bulk=50.0, seed=seed, cost=10))
         cases.append(dict(key=f"condensed-bulk-history/{fk}", kind="ni-bulk", fk=fk, seed=seed, cost=10))
+        cases.append(dict(key=f"condensed-tangent/{fk}", kind="ni-tangent", fk=fk, seed=seed, cost=5))
     for fam in ("quad", "hexahedron", "quad9"):
         for n in (2, 3, 4, 5) if fam != "hexahedron" else (2, 3, 4):
             cases.append(dict(key=f"uniform/{fam}/n={n}", kind="uniform", fam=fam, n=n, seed=seed, cost=4))
@@ -398,6 +399,65 @@ def run(case):
             c.cmp(f"level{lv}/J", "converged volume ratios, in-place Newton loop", a[2], b[2], 1e-7)
             c.cmp(f"level{lv}/p", "converged pressures, in-place Newton loop", 1 + a[1] / case["bulk"], 1 + b[1] / case["bulk"], 1e-7)
         return c.result(dict(case=case["key"], cells=int(mesh.ncells)))
+    if kind == "ni-tangent":
+        # the condensed tangent equals the explicit three-field tangent with p and J condensed out (Schur complement) at the same
+        # (u, p, J) -- whatever the route by which the long-lived condensed body was brought to that state: every sequence (<= 3)
+        # over {vector, matrix, evaluate.gradient, evaluate.hessian} x {state A, state B} (each given twice: settled) ending in a
+        # matrix call with or without the field
+        fk = case["fk"]
+        if fk == "3d":
+            mesh = fem.Cube(n=3)
+            Rg, F = fem.RegionHexahedron, fem.Field
+        else:
+            mesh = fem.Rectangle(a=(0.0, 0.4 if fk == "axi" else 0.0), b=(1.0, 1.4 if fk == "axi" else 1.0), n=3)
+            Rg, F = fem.RegionQuad, (fem.FieldAxisymmetric if fk == "axi" else fem.FieldPlaneStrain)
+        region = Rg(mesh)
+        kw = dict(axisymmetric=True) if fk == "axi" else (dict(planestrain=True) if fk == "ps" else {})
+        K_ = 30.0
+        fc = fem.FieldContainer([F(region, dim=mesh.dim)])
+        U = {"A": 0.06 * zoo.offarr(seed, 1160, fc[0].values.shape), "B": -0.05 * zoo.offarr(seed, 1161, fc[0].values.shape) + 0.02}
+        refK = {}
+        for nm, Uv in U.items():
+            fc[0].values[:] = Uv
+            bs = fem.SolidBodyNearlyIncompressible(fem.NeoHooke(mu=1.0), fc, bulk=K_)
+            bs.assemble.vector(fc)
+            bs.assemble.vector(fc)
+            fm = fem.FieldsMixed(region, n=3, **kw)
+            fm[0].values[:] = Uv
+            fm[1].values[:] = np.asarray(bs.results.state.p).reshape(fm[1].values.shape)
+            fm[2].values[:] = np.asarray(bs.results.state.J).reshape(fm[2].values.shape)
+            Kx = fem.SolidBody(fem.NearlyIncompressible(fem.NeoHooke(mu=1.0), bulk=K_), fm).assemble.matrix(fm).toarray()
+            nu_ = fm.fieldsizes[0]
+            Kuu, Kur, Kru, Krr = Kx[:nu_, :nu_], Kx[:nu_, nu_:], Kx[nu_:, :nu_], Kx[nu_:, nu_:]
+            refK[nm] = Kuu - Kur @ np.linalg.solve(Krr, Kru)
+            c.trans += 3
+        ops = [(w, X) for w in ("vector", "matrix", "gradient", "hessian") for X in ("A", "B")] + [("matrix", None)]
+        nh = 0
+        for d_ in (1, 2, 3):
+            for seq in itertools.product(range(len(ops)), repeat=d_):
+                if ops[seq[-1]][0] != "matrix":
+                    continue
+                fc[0].values[:] = U["A"]
+                body = fem.SolidBodyNearlyIncompressible(fem.NeoHooke(mu=1.0), fc, bulk=K_)
+                body.assemble.vector(fc)
+                body.assemble.vector(fc)
+                cur = "A"
+                for k in seq:
+                    w, X = ops[k]
+                    fn = getattr(body.assemble if w in ("vector", "matrix") else body.evaluate, w)
+                    if X is not None:
+                        fc[0].values[:] = U[X]
+                        cur = X
+                        fn(fc)
+                        got = fn(fc)
+                    else:
+                        got = fn()
+                    c.trans += 1
+                lab = " > ".join(f"{ops[i][0]}({'field@' + ops[i][1] if ops[i][1] else ''})" for i in seq)
+                c.cmp(f"history={lab}", "condensed tangent after this call history vs the Schur complement of the explicit three-field tangent at the same state", got.toarray(), refK[cur], 1e-8)
+                nh += 1
+        c.outcomes.add(f"tangent-histories={nh}")
+        return c.result(dict(case=case["key"], cells=int(mesh.ncells), histories=nh))
     if kind == "ni-bulk":
         # histories of the bulk modulus on the condensed body: every sequence (<= 3 solves, increasing load) over two bulk moduli,
         # (a) one long-lived body whose `bulk` attribute is changed between the solves, (b) a new body per solve created with
